@@ -215,6 +215,16 @@ func genCorpusItem(c *rt.C, env *psEnv, kind string, invalid bool) corpusItem {
 			it.data = ref.WriteAFM(rng, toAFMModel(rng, m))
 		}
 		it.desc = "AFM file"
+		if rng.IntN(5) == 0 {
+			// a file without the customary first line whose first line carries
+			// data, with things in front of it that editors and transfers leave
+			// there: whatever the reader makes of them must not depend on how
+			// many bytes its first read returns
+			pre := []string{"\xef\xbb\xbf", "\xef\xbb\xbf", "\xef\xbb\xbf", "\xef\xbb\xbf", "\xfe\xff", "\xff\xfe", "\x04", " ", "\t", "\r\n", "\x00", "\x1a", "\xef\xbb", "\xef"}[rng.IntN(14)]
+			key := []string{"FontName Demo", "Notice first line", "CapHeight 700", "StartCharMetrics 1", "IsFixedPitch true"}[rng.IntN(5)]
+			it.data = []byte(pre + key + "\nStartCharMetrics 2\nC 65 ; WX 500 ; N A ; B 0 0 10 10 ;\nC 66 ; WX 600 ; N B ;\nEndCharMetrics\nEndFontMetrics\n")
+			it.desc = "AFM file without the customary first line, with bytes in front of its first keyword"
+		}
 	case kPFB:
 		var segs []pfbSeg
 		for i, n := 0, 1+rng.IntN(5); i < n; i++ {
